@@ -129,3 +129,17 @@ def det_rows(st):
     driver); several clauses run through an errgroup"""
     note = st.get("note") or ""
     return st["kind"] != "construct" or (" . " not in note and "OPTIONAL" not in note)
+
+
+def run_harness(exe, args, cwd, env, timeout):
+    """run a harness binary; stdout = JSON lines, stderr kept apart (a Go panic trace must not drown in the data);
+    one retry (shared, heavily loaded machine: kills, 5 s watchdog on a prefix statement); a deterministic failure fails twice"""
+    import subprocess, json
+    last = None
+    for attempt in (1, 2):
+        p = subprocess.run([exe] + args, cwd=cwd, env=env, stdout=subprocess.PIPE, stderr=subprocess.PIPE, timeout=timeout,
+                           text=True, errors="replace")
+        if p.returncode == 0:
+            return [json.loads(l) for l in p.stdout.splitlines() if l.startswith("{")]
+        last = "exit status %d (attempt %d)\nstderr:\n%s\nlast stdout:\n%s" % (p.returncode, attempt, p.stderr[-3000:], p.stdout[-600:])
+    raise vcheck.Broken("%s failed" % exe.rsplit("/", 1)[-1], last)
